@@ -21,9 +21,9 @@ RULES = {
     'R6': 'the decoder stays inside the record: the printer gives it the number of bytes left in the record (entailed <= bytes_read), and in the decoder every fixed-width argument read lies below that bound (data cursor + width <= bound, by abstract interpretation over the cursor), every string argument is used only behind a terminator search limited to the bytes left, and the cursor never passes the bound',
     'R8': 'a stored string argument is handed to snprintf with a plain s directive: every case of the decoder that appends a length-modifier character to the rebuilt directive (the cases that raise a length flag) first records where it starts, and the string case rewinds the directive to that position before the string is printed ("%ls" would make printf read the stored bytes as wide characters, past the record)',
     'R9': 'printing a dump uses a ring of its own: the name qb_rb_create_from_file gives to qb_rb_open is not a constant (it contains the process id), so that two printers at the same time do not meet in each other\'s files and leave one behind',
-    'R7': 'the reader takes what the writer can store: the largest message length the printer accepts and the text buffer it decodes into are not below the largest max_line_length a target can be given (C13.R4), and the record buffer is not of a constant size (the function name in a record has no bound) but measured on the ring just opened',
+    'R7': 'the reader takes what the writer can store: the largest message length the printer accepts and the text buffer it decodes into are not below the largest max_line_length a target can be given (C13.R4), and the record buffer is not of a constant size (the function name in a record has no bound) but measured on the ring just opened, and that measure is only ever raised by a constant, not capped',
 }
-FLOORS = {'R1': 9, 'R2': 12, 'R3': 2, 'R4': 6, 'R5': 5, 'R6': 12, 'R7': 3, 'R8': 4, 'R9': 1}
+FLOORS = {'R1': 9, 'R2': 12, 'R3': 2, 'R4': 6, 'R5': 5, 'R6': 12, 'R7': 4, 'R8': 4, 'R9': 1}
 
 
 def run(ctx):
@@ -627,6 +627,14 @@ def r7(ctx):
     srcs = [x for x in srcs if x.get('k') != 'update']
     consts = [s for s in srcs if cval(unwrap(s)) is not None]
     measured = [s for s in srcs if unwrap(s).get('k') == 'call' and any(estr(unwrap(a)) == inst for a in unwrap(s)['args'])]
+    # a constant may only raise the measured capacity (a floor for the smallest record), never cap it
+    capn = estr(unwrap(cap))
+    lowered = [st for st in f.events('STORE') if estr(st.lhs) == capn and not any(unwrap(st.rhs) is unwrap(m) or estr(st.rhs) == estr(m) for m in measured) and
+               f.may_follow(st, rd[0]) and any(at.ls == capn and at.op in ('>', '>=') for (at, _e) in f.guards(st))]
+    ctx.check('R7', 'record-buffer-not-capped', not lowered, lowered[0] if lowered else rd[0],
+              'the measured record capacity is only ever raised (to hold the smallest record), never cut down to a constant',
+              'the record capacity measured on the ring is cut down to %s: a record whose function name and message together are longer (the name has no bound, the message goes up to max_line_length) ends the print with ENOBUFS and hides itself and every later record'
+              % (estr(lowered[0].rhs) if lowered else ''))
     ctx.check('R7', 'record-buffer-measured-on-the-ring', bool(measured), rd[0],
               'the record capacity comes from %s' % ', '.join(sorted(estr(s) for s in measured)),
               'the record capacity %s is a constant (%s): a record with a longer function name or message ends the print with ENOBUFS' %
